@@ -485,6 +485,15 @@ func (m *machine) actDML(rt *rapid.T) {
 	se := m.pickSession(rt)
 	tbl := rapid.SampledFrom(m.tables).Draw(rt, "table")
 	o := drawOp(rt)
+	if m.withIdx && kf.Listed(kfSharedIdx) && (o.kind == "update-by-v" || o.kind == "delete-by-v") {
+		// Region of the listed finding: with the index entries shared between sessions, a DML
+		// statement whose rows are found through kv may pick the wrong rows *before* any read
+		// has shown the corrupted index (then the full scans are wrong as well, which the
+		// narrow signature does not cover). While the id is listed such statements are only
+		// run in the histories without the index (there WHERE v = j is a filtered scan).
+		m.st.Excluded("index-driven-dml-in-indexed-history(" + kfSharedIdx + ")")
+		return
+	}
 	m.implicitBegin(se)
 	if se.inTx {
 		m.touch(se, tbl)
@@ -594,6 +603,10 @@ func (m *machine) violation(rt *rapid.T, kind, msg string) {
 	rt.Fatalf("C17 violated (%s): %s\nhistory:\n%s", kind, msg, m.history())
 }
 
+// kfSharedIdx is the id (owned by C18) of the finding that TableData.copy() shares the
+// secondary-index entries between table copies.
+const kfSharedIdx = "C18-stale-index-after-failed-stmt"
+
 type knownFinding struct {
 	id    string
 	match func(m *machine, kind string) bool
@@ -605,7 +618,7 @@ type knownFinding struct {
 // the full scan of the table agrees with an allowed view, and only the read through the
 // secondary index (wrong rows or an error) does not.
 var knownFindings = []knownFinding{
-	{id: "C18-stale-index-after-failed-stmt", match: func(m *machine, kind string) bool {
+	{id: kfSharedIdx, match: func(m *machine, kind string) bool {
 		return m.withIdx && (kind == "read-index-scan" || kind == "read-error-index")
 	}},
 }
@@ -630,9 +643,9 @@ func newMachine(rt *rapid.T, st *stats.Collector) *machine {
 	// While finding C18-stale-index-after-failed-stmt is listed, its region (tables with a secondary index)
 	// is left out of three quarters of the histories so that the search continues behind it.
 	m.withIdx = true
-	if kf.Listed("C18-stale-index-after-failed-stmt") && rapid.IntRange(0, 3).Draw(rt, "withIdx") != 0 {
+	if kf.Listed(kfSharedIdx) && rapid.IntRange(0, 3).Draw(rt, "withIdx") != 0 {
 		m.withIdx = false
-		st.Excluded("secondary-index(C18-stale-index-after-failed-stmt)")
+		st.Excluded("secondary-index(" + kfSharedIdx + ")")
 	}
 	nt := rapid.IntRange(2, 3).Draw(rt, "tables")
 	m.tables = []string{"x", "y", "z"}[:nt]
